@@ -100,4 +100,41 @@ Section Final.
     - repeat apply (ScaleAbsProofs.rel_maybe_sub_FO k); try assumption. apply sc_sub; assumption.
     - apply sc_sub; [|exact Hs]. repeat apply (ScaleAbsProofs.rel_maybe_sub_FO k); try assumption. apply sc_sub; assumption.
   Qed.
+
+  (* ---- 3. the layout stored for the child *)
+  Lemma rel_position_layout area area' cas shim shim' cs cs' order o o' : arc_rel L area area' -> L shim shim' -> gstyle_wrel k cs cs' ->
+    output_rel k o o' -> flay_rel k (position_layout area cas shim cs order o) (position_layout area' cas shim' cs' order o').
+  Proof.
+    intros Ha Hs Ws Ho. gw_open Ws. pose proof (Wabs _ _ Ha) as Hi. destruct Ho as ([Hmw Hmh] & Hoc & _).
+    unfold position_layout.
+    set (i := AG.grid_resolve area (abs_style cs)) in *. set (i' := AG.grid_resolve area' (abs_style cs')) in *. clearbody i i'.
+    assert (Hm : ScaleAbs.asz_rel L (a_size (out_size o)) (a_size (out_size o'))) by (split; assumption).
+    pose proof (ScaleAbsProofs.rel_grid_place k Hk _ _ cas _ _ _ _ _ _ Ha Hs Hi Hm) as ([Hlx Hly] & [Hosw Hosh] & (M1 & M2 & M3 & M4)).
+    pose proof Hi as (_ & _ & _ & (P1 & P2 & P3 & P4) & (B1 & B2 & B3 & B4) & _).
+    unfold flay_rel. cbn [fl_order fl_location fl_size fl_content_size fl_scrollbar_size fl_border fl_padding fl_margin]. rewrite Wov.
+    split; [reflexivity|]. split; [split; assumption|]. split; [split; assumption|]. split; [exact Hoc|].
+    split; [split; cbn [width height]; match goal with |- context [if ?b then _ else _] => destruct b end; auto using sc_zero|].
+    split; [repeat split; assumption|]. split; repeat split; assumption.
+  Qed.
+
+  (* ---- 4. content size contributions *)
+  Lemma rel_content_size_contribution cs cs' l l' : gstyle_wrel k cs cs' -> flay_rel k l l' ->
+    sz_rel L (content_size_contribution cs l) (content_size_contribution cs' l').
+  Proof.
+    intros Ws Hl. gw_open Ws. destruct Hl as (_ & [Hx Hy] & [Hsw Hsh] & [Hcw Hch] & _). unfold content_size_contribution. rewrite Wov.
+    set (ov := overflow (gs_core cs)).
+    assert (Hw : L (match px ov with Visible => fmax (width (gl_size l)) (width (gl_content_size l)) | _ => width (gl_size l) end)
+                   (match px ov with Visible => fmax (width (gl_size l')) (width (gl_content_size l')) | _ => width (gl_size l') end))
+      by (destruct (px ov); try assumption; apply (sc_max k); assumption).
+    assert (Hh : L (match py ov with Visible => fmax (height (gl_size l)) (height (gl_content_size l)) | _ => height (gl_size l) end)
+                   (match py ov with Visible => fmax (height (gl_size l')) (height (gl_content_size l')) | _ => height (gl_size l') end))
+      by (destruct (py ov); try assumption; apply (sc_max k); assumption).
+    set (w := match px ov with Visible => _ | _ => width (gl_size l) end) in *. set (w' := match px ov with Visible => _ | _ => width (gl_size l') end) in *.
+    set (h := match py ov with Visible => _ | _ => height (gl_size l) end) in *. set (h' := match py ov with Visible => _ | _ => height (gl_size l') end) in *.
+    clearbody w w' h h'.
+    rewrite (sc_gtb k _ _ zero zero Hk Hw (sc_zero k)), (sc_gtb k _ _ zero zero Hk Hh (sc_zero k)).
+    destruct (gtb w zero && gtb h zero)%bool; [|apply rel_size_ZERO']. split; cbn [width height]; apply sc_add; assumption.
+  Qed.
+  Lemma rel_size_f32_max a a' b b' : sz_rel L a a' -> sz_rel L b b' -> sz_rel L (size_f32_max a b) (size_f32_max a' b').
+  Proof. intros [H1 H2] [H3 H4]. split; cbn [width height]; apply (sc_max k); assumption. Qed.
 End Final.
